@@ -1151,3 +1151,63 @@ package mcp
 //@   trusted
 //@   modifies extern
 //@   modifies allElems("paramHeaderBinding"), maps("map[string]headerSchemaProperty")
+
+// ---------------------------------------------------------------------------------------------
+// C18 (client caches): a cached answer is filled only if it is not older than the last invalidation
+// ---------------------------------------------------------------------------------------------
+// Every cache counts its invalidations (gen). A request reads the count before it is sent and the response is stored
+// only if the count is still the same when it is filled in (under the cache lock); invalidation advances the count
+// and empties the cache (or removes the key). So an answer computed before a change can no longer be cached after the
+// notification about that change was handled (finding F6: the caches used to be filled unconditionally; repaired).
+//@ func (*methodCache[R]).generation [C18]
+//@   ensures @current-count result == mc.gen
+//@ func (*methodCache[R]).putIfCurrent [C18]
+//@   modifies mc.cachedValues, mapOf(mc.cachedValues)
+//@   ensures @stale-answer-is-dropped old(mc.gen) != gen ==> mc.cachedValues == old(mc.cachedValues) && (forall k string :: {inDom(mc.cachedValues, k)} inDom(mc.cachedValues, k) <==> old(inDom(mc.cachedValues, k)))
+//@   ensures @current-answer-is-stored old(mc.gen) == gen ==> inDom(mc.cachedValues, key) && mc.cachedValues[key] != nil && mc.cachedValues[key].result == result
+//@ func (*methodCache[R]).invalidate [C18]
+//@   assume mc.gen < 18446744073709551615   // fewer than 2^64 invalidations
+//@   modifies mc.gen, mapOf(mc.cachedValues)
+//@   ensures @count-advances-and-cache-is-empty mc.gen == old(mc.gen) + 1 && (forall k string :: {inDom(mc.cachedValues, k)} !inDom(mc.cachedValues, k))
+//@ func (*methodCache[R]).invalidateKey [C18]
+//@   assume mc.gen < 18446744073709551615   // fewer than 2^64 invalidations
+//@   modifies mc.gen, mapOf(mc.cachedValues)
+//@   ensures @count-advances-and-key-is-gone mc.gen == old(mc.gen) + 1 && !inDom(mc.cachedValues, key)
+
+// The five cached client methods: the count handed to putIfCurrent is the one read before the request was sent.
+//@ func (*ClientSession).ListTools [C18]
+//@   track handleSend as send
+//@   track generation as epoch
+//@   track putIfCurrent as fill
+//@   requires cs != nil
+//@   modifies *
+//@   assert at call handleSend: @count-read-before-the-request-is-sent calls(epoch) == 1
+//@   assert at call putIfCurrent: @fill-is-checked-against-the-count-read-before-sending calls(epoch) == 1 && calls(send) == 1 && $3 == callResult(epoch, 1, 0)
+//@ func (*ClientSession).ListPrompts [C18]
+//@   track handleSend as send
+//@   track generation as epoch
+//@   requires cs != nil
+//@   modifies *
+//@   assert at call handleSend: @count-read-before-the-request-is-sent calls(epoch) == 1
+//@   assert at call putIfCurrent: @fill-is-checked-against-the-count-read-before-sending calls(epoch) == 1 && calls(send) == 1 && $3 == callResult(epoch, 1, 0)
+//@ func (*ClientSession).ListResources [C18]
+//@   track handleSend as send
+//@   track generation as epoch
+//@   requires cs != nil
+//@   modifies *
+//@   assert at call handleSend: @count-read-before-the-request-is-sent calls(epoch) == 1
+//@   assert at call putIfCurrent: @fill-is-checked-against-the-count-read-before-sending calls(epoch) == 1 && calls(send) == 1 && $3 == callResult(epoch, 1, 0)
+//@ func (*ClientSession).ListResourceTemplates [C18]
+//@   track handleSend as send
+//@   track generation as epoch
+//@   requires cs != nil
+//@   modifies *
+//@   assert at call handleSend: @count-read-before-the-request-is-sent calls(epoch) == 1
+//@   assert at call putIfCurrent: @fill-is-checked-against-the-count-read-before-sending calls(epoch) == 1 && calls(send) == 1 && $3 == callResult(epoch, 1, 0)
+//@ func (*ClientSession).ReadResource [C18]
+//@   track handleSend as send
+//@   track generation as epoch
+//@   requires cs != nil
+//@   modifies *
+//@   assert at call handleSend: @count-read-before-the-request-is-sent calls(epoch) == 1
+//@   assert at call putIfCurrent: @fill-is-checked-against-the-count-read-before-sending calls(epoch) == 1 && calls(send) == 1 && $3 == callResult(epoch, 1, 0)
